@@ -82,4 +82,92 @@ theorem prependWin_spec (f : Flex) (a n1 : Nat) (h : f.Inv) (ha : a + n1 ≤ f.c
     exact ⟨_, by simp only [Flex.prependWin, show ¬ (a + n1 > f.cap) by omega, if_false,
       show ¬ (f.cap ≥ n1 + f.len) by omega], hp.2, hp.1⟩
 
+/-! ### the argument window's capacity (wave 8 B, seed C14-K) -/
+
+/-- the code's address-range test is adequate: it does not look at the capacities -/
+theorem ovCode_adequate : ovCode.Adequate := by
+  intro a n1 k nc c _ _ _ hn ha
+  simp only [ovCode, overlapsWin, decide_eq_true_eq]
+  omega
+
+/-- **`Prepend` with ANY adequate alias test, EVERY window `(offset, length, capacity)`** of the
+receiver's array: no panic, `Values = window ++ old Values` -/
+theorem prependWinG_spec (ov : OvTest) (hov : ov.Adequate) (f : Flex) (a n1 k : Nat) (h : f.Inv)
+    (hk : a + n1 ≤ k) (hc' : k ≤ f.cap) :
+    ∃ f', f.prependWinG ov a n1 k = some f' ∧ f'.Inv ∧ f'.values = (f.mem.drop a).take n1 ++ f.values := by
+  have hwl : ((f.mem.drop a).take n1).length = n1 := by
+    unfold Flex.cap at hc'; simp [List.length_take, List.length_drop]; omega
+  by_cases hc : n1 + f.len ≤ f.cap
+  · simp only [Flex.prependWinG, show ¬ (a + n1 > k ∨ k > f.cap) by omega, if_false,
+      show f.cap ≥ n1 + f.len by omega, if_true]
+    by_cases ho : ov a n1 k (n1 + f.len) f.cap = true
+    · simp only [ho, if_true]
+      obtain ⟨h1, h2⟩ := writeFront_spec f n1 _ hwl h hc
+      exact ⟨_, rfl, h1, h2⟩
+    · simp only [ho, Bool.false_eq_true, if_false]
+      have hv : ((f.shifted n1).drop a).take n1 = (f.mem.drop a).take n1 := by
+        by_cases hn : n1 = 0
+        · subst hn; simp
+        · by_cases ha : a < n1 + f.len
+          · exact absurd (hov a n1 k (n1 + f.len) f.cap hk hc' hc (by omega) ha) ho
+          · exact spare_window_unchanged f a n1 h hc (by omega)
+      rw [hv]
+      obtain ⟨h1, h2⟩ := writeFront_spec f n1 _ hwl h hc
+      exact ⟨_, rfl, h1, h2⟩
+  · have hp := prepend_spec f ((f.mem.drop a).take n1) h
+    exact ⟨_, by simp only [Flex.prependWinG, show ¬ (a + n1 > k ∨ k > f.cap) by omega, if_false,
+      show ¬ (f.cap ≥ n1 + f.len) by omega], hp.2, hp.1⟩
+
+/-- the three-index model of the code is the two-index one: the window's capacity is not looked at -/
+theorem prependWin3_eq (f : Flex) (a n1 k : Nat) (hk : a + n1 ≤ k) (hc : k ≤ f.cap) :
+    f.prependWin3 a n1 k = f.prependWin a n1 := by
+  simp only [Flex.prependWin3, Flex.prependWinG, Flex.prependWin, ovCode,
+    show ¬ (a + n1 > k ∨ k > f.cap) by omega, show ¬ (a + n1 > f.cap) by omega, if_false]
+  rfl
+
+/-- outside `a + n1 ≤ k ≤ cap` the caller's slice expression panics -/
+theorem prependWinG_bounds (ov : OvTest) (f : Flex) (a n1 k : Nat) (h : a + n1 > k ∨ k > f.cap) :
+    f.prependWinG ov a n1 k = none := by
+  simp only [Flex.prependWinG, h, if_true]
+
+theorem appendWin3_spec (g : Nat → Nat → Nat) (f : Flex) (a n1 k : Nat) (h : f.Inv)
+    (hk : a + n1 ≤ k) (hc : k ≤ f.cap) :
+    ∃ f', f.appendWin3 g a n1 k = some f' ∧ f'.Inv ∧ f'.values = f.values ++ (f.mem.drop a).take n1 := by
+  have hp := append_spec g f ((f.mem.drop a).take n1) h
+  exact ⟨_, by simp only [Flex.appendWin3, show ¬ (a + n1 > k ∨ k > f.cap) by omega, if_false], hp.2, hp.1⟩
+
+/-- the same-end-address test is NOT adequate: a clipped window inside the content ends elsewhere -/
+theorem ovCapEnd_not_adequate : ¬ ovCapEnd.Adequate := by
+  intro h
+  have := h 3 2 5 8 16 (by omega) (by omega) (by omega) (by omega) (by omega)
+  simp [ovCapEnd] at this
+
+/-- … but it IS right for every window whose capacity reaches the end of the array (`f.Values[i:j]`),
+which is why two-index windows alone do not tell the two tests apart -/
+theorem prependWinG_capEnd_full (f : Flex) (a n1 : Nat) (h : f.Inv) (ha : a + n1 ≤ f.cap) :
+    ∃ f', f.prependWinG ovCapEnd a n1 f.cap = some f' ∧ f'.Inv ∧
+      f'.values = (f.mem.drop a).take n1 ++ f.values := by
+  have hwl : ((f.mem.drop a).take n1).length = n1 := by
+    unfold Flex.cap at ha; simp [List.length_take, List.length_drop]; omega
+  by_cases hc : n1 + f.len ≤ f.cap
+  · simp only [Flex.prependWinG, show ¬ (a + n1 > f.cap ∨ f.cap > f.cap) by omega, if_false,
+      show f.cap ≥ n1 + f.len by omega, if_true]
+    by_cases ho : ovCapEnd a n1 f.cap (n1 + f.len) f.cap = true
+    · simp only [ho, if_true]
+      obtain ⟨h1, h2⟩ := writeFront_spec f n1 _ hwl h hc
+      exact ⟨_, rfl, h1, h2⟩
+    · simp only [ho, Bool.false_eq_true, if_false]
+      have hv : ((f.shifted n1).drop a).take n1 = (f.mem.drop a).take n1 := by
+        by_cases hn : n1 = 0
+        · subst hn; simp
+        · exfalso; apply ho
+          simp only [ovCapEnd, decide_eq_true_eq]
+          exact ⟨by omega, by omega, trivial⟩
+      rw [hv]
+      obtain ⟨h1, h2⟩ := writeFront_spec f n1 _ hwl h hc
+      exact ⟨_, rfl, h1, h2⟩
+  · have hp := prepend_spec f ((f.mem.drop a).take n1) h
+    exact ⟨_, by simp only [Flex.prependWinG, show ¬ (a + n1 > f.cap ∨ f.cap > f.cap) by omega, if_false,
+      show ¬ (f.cap ≥ n1 + f.len) by omega], hp.2, hp.1⟩
+
 end Golib.C14
